@@ -23,7 +23,7 @@ import (
 func TestMain(m *testing.M) {
 	kit.Main(m, "C17", "fault_enumeration",
 		"both AWS KMS plugins built through their public constructors (v1: NewAWS then the exported Clients[i].KMS replaced; v2: Builder + WithKMSFactory) over fake regional endpoints with their own master keys, call log and retained plaintext slices. "+
-			"ENUMERATED: 1..3 regions (thorough: 4), every preferred region (and a preferred region that is not configured), every subset of regions failing GenerateDataKey x every subset failing Encrypt at wrap time, then for every envelope every preferred region of the unwrapper x every subset failing Decrypt x every subset returning wrong bytes, wrapper and unwrapper each in {v1, v2} (envelopes are exchanged between the plugins). The same enumeration (fewer regions) with regional failures shaped like per-call timeouts (errors wrapping context.DeadlineExceeded / Canceled while the caller's context is alive) and with the v2 plugin built from an application aws.Config whose Region is another configured KMS region. "+
+			"ENUMERATED: 1..3 regions (thorough: 4; up to 6 with every GenerateDataKey failure set x {no, all} Encrypt failures x every Decrypt failure set), every preferred region (and a preferred region that is not configured), every subset of regions failing GenerateDataKey x every subset failing Encrypt at wrap time, then for every envelope every preferred region of the unwrapper x every subset failing Decrypt x every subset returning wrong bytes, wrapper and unwrapper each in {v1, v2} (envelopes are exchanged between the plugins). The same enumeration (fewer regions) with regional failures shaped like per-call timeouts (errors wrapping context.DeadlineExceeded / Canceled while the caller's context is alive) and with the v2 plugin built from an application aws.Config whose Region is another configured KMS region. "+
 			"Oracle from the fakes' call logs: wrap succeeds iff some region can generate, generation is attempted preferred-first, each region at most once, stopping at the first success; the envelope (documented JSON shape) has exactly one entry for the generating region and one per region whose Encrypt succeeded; "+
 			"unwrap returns the identical key bytes iff some configured region with an entry can decrypt correctly, is attempted preferred-first over regions that have entries, never on regions without one, stops at the first success; the data-key plaintext handed out by the generating region is zero when EncryptKey returns (the unwrap-side wipe belongs to C10). "+
 			"One evaluation = one wrap or unwrap case. Non-trivial = at least one region failed in the case; all enumerated cases are distinct by construction",
@@ -32,7 +32,7 @@ func TestMain(m *testing.M) {
 
 var ctx = context.Background()
 
-var allRegions = []string{"us-west-2", "us-east-1", "eu-west-1", "ap-south-1"}
+var allRegions = []string{"us-west-2", "us-east-1", "eu-west-1", "ap-south-1", "sa-east-1", "ap-northeast-1"}
 
 type plugin struct {
 	name    string
@@ -162,7 +162,15 @@ func enumerateRegionFailures(t *testing.T, maxN int, failErr error, kinds []stri
 	shard, shards := kit.Shard()
 	unit := 0
 	var total, nontrivial int64
-	for n := 1; n <= maxN; n++ {
+	// beyond maxN (up to six regions, main enumeration only) the failure sets that matter for long region lists:
+	// every subset failing GenerateDataKey x {none, all} failing Encrypt, unwrapped by the same kind of plugin
+	// with the same preferred region under every subset failing Decrypt
+	wideN := maxN
+	if failErr == nil && len(kinds) == 2 {
+		wideN = len(allRegions)
+	}
+	for n := 1; n <= wideN; n++ {
+		wide := n > maxN
 		regions := allRegions[:n]
 		// one set of regional endpoints and one plugin instance per (kind, preferred region); cases only flip fault switches
 		w := fakes.NewKMSWorld(regions)
@@ -186,6 +194,9 @@ func enumerateRegionFailures(t *testing.T, maxN int, failErr error, kinds []stri
 						continue
 					}
 					for encMask := 0; encMask < 1<<n; encMask++ {
+						if wide && encMask != 0 && encMask != 1<<n-1 {
+							continue
+						}
 						c := caseDesc{n: n, wrapper: wrapper, wrapPref: wrapPref, failGen: subset(genMask, regions), failEnc: subset(encMask, regions)}
 						w.Reset()
 						for r, k := range w.Regions {
@@ -211,9 +222,18 @@ func enumerateRegionFailures(t *testing.T, maxN int, failErr error, kinds []stri
 						}
 						// unwrap phase
 						for _, unwrapper := range kinds {
+							if wide && unwrapper != wrapper {
+								continue
+							}
 							for _, unwrapPref := range append(append([]string{}, regions...), "nowhere-1") {
+								if wide && unwrapPref != wrapPref {
+									continue
+								}
 								for decMask := 0; decMask < 1<<n; decMask++ {
 									for wrongMask := 0; wrongMask < 1<<n; wrongMask++ {
+										if wide && wrongMask != 0 {
+											break
+										}
 										if decMask&wrongMask != 0 {
 											continue // a region either errors or lies, not both
 										}
@@ -248,6 +268,7 @@ func enumerateRegionFailures(t *testing.T, maxN int, failErr error, kinds []stri
 	kit.Rec.Enumerated(total, nontrivial)
 	if failErr == nil && len(kinds) == 2 {
 		kit.Rec.Extra("max_regions", maxN)
+		kit.Rec.Extra("max_regions_reduced_enumeration", wideN)
 	}
 	kit.Rec.SetExhaustive(true)
 }
